@@ -90,9 +90,9 @@ def check_c04(tier, seed):
     core.build('plain')
     rng = ck.rng
     fams = []
-    K = 10 if tier == 'quick' else 48
+    K = 12 if tier == 'quick' else 48
     corpus = list(C04_CORPUS)
-    nexp = 2 if tier == 'quick' else 40
+    nexp = 6 if tier == 'quick' else 40
     for i in range(nexp):
         w, h = gen.size(rng)
         cfg = gen.swarm_cfg(rng, fields=gen.SAFE if tier == 'quick' else None, nmax=4)
